@@ -240,6 +240,7 @@ class SimDeadlock(Exception):
 
 
 LISTING_PROBE_CAP = 120000
+PER_SPEC_CAP = 8000  # schedules per (group, trace mode, order) of the systematic one-pre-emption sweep
 
 
 def nthreads_of(plan: dict) -> int:
@@ -1468,6 +1469,10 @@ def sweep_jobs(root: int, groups: list, refcache: RefCache, specs: list, hot_inf
             ref_first = refcache.get(recs[first])
             K = ((ref_first.get("ncalls") or 0) + (ref_first.get("nlines") or 0) if trace_mode == "line"
                  else (ref_first.get("ncalls") or 0) * (2 if trace_mode == "callret" else 1))
+            if K > stride * PER_SPEC_CAP:
+                # a very long encode: bound the number of schedules of this (group, mode, order); the wall cap
+                # would cut the batch anyway, and the job list has to fit in memory
+                stride = -(-K // PER_SPEC_CAP)
             off = core.rng_for(root, PROP, "sweep-offset", gi, order, trace_mode).randrange(stride) if stride > 1 else 0
             for k in range(1 + off, K + 1, stride):
                 plan = {"recipes": recs, "decider": {"kind": "sweep"}, "first": first, "trace_mode": trace_mode,
